@@ -48,7 +48,10 @@ func (comp Compiler) Compile(stmts []*gripql.GraphStatement, opts *gdbi.CompileO
 	ps := pipeline.NewPipelineState(stmts)
 	if opts != nil {
 		ps.LastType = opts.PipelineExtension
-		ps.MarkTypes = opts.ExtensionMarkTypes
+		// copy: the caller's map (the mark types of a stored job) must stay as it is
+		for k, v := range opts.ExtensionMarkTypes {
+			ps.MarkTypes[k] = v
+		}
 	}
 	fmt.Printf("GRIDS compile: %#v %#v\n", *ps, opts)
 
